@@ -205,6 +205,9 @@ Section Sem.
 
   Definition call := (validator * pyval)%type.
 
+  Definition normal (o : outcome) : bool :=
+    match o with OValid _ | OInvalid _ => true | _ => false end.
+
   Fixpoint run_calls (stop_valid : bool) (rec : runner) (cs : list call) : list outcome :=
     match cs with
     | [] => []
@@ -275,8 +278,9 @@ Section Sem.
             end
         | o => inl o
         end
-    | _ :: _, [o] => inl o
-    | _, _ => inr (acc, errs)
+    | [], [] => inr (acc, errs)
+    | _ :: _, [o] => if normal o then inl (ORaise ExOther) else inl o
+    | _, _ => inl (ORaise ExOther)      (* unreachable: two outcomes per pair *)
     end.
 
   (* ---------- collection bodies ---------- *)
@@ -424,7 +428,7 @@ Section Sem.
            (orig : pyval) (outs : list outcome)
     : outcome + (list (pyval * pyval) * list (pyval * invalid)) :=
     match keys with
-    | [] => inr ([], [])
+    | [] => match outs with [] => inr ([], []) | _ => inl (ORaise ExOther) end
     | (k, (_, required)) :: keys' =>
         match dict_get data k with
         | None =>
@@ -575,7 +579,8 @@ Section Sem.
   Fixpoint collect_union (outs : list outcome) : outcome + list invalid :=
     match outs with
     | [] => inr []
-    | OValid w :: _ => inl (OValid w)
+    | [OValid w] => inl (OValid w)
+    | OValid _ :: _ => inl (ORaise ExOther)      (* unreachable: the list ends at the first Valid *)
     | OInvalid inv :: r =>
         match collect_union r with
         | inl o => inl o
